@@ -217,7 +217,7 @@ def attribute(diag, g, gen_file):
                 break
             k -= 1
         fn = "lemma:" + (pf or "line%d" % ln)
-    if cls == "refuted" and kind == "assert" and site is not None and site[1].get("kind") == "hint":
+    if cls == "refuted" and kind == "assert" and site is not None and site[1].get("kind") == "hint" and not site[1].get("semantic"):
         # an assertion of OURS (a proof hint injected into an extracted function) failed: the hint no longer fits the code.  That
         # is not a refuted contract clause - the property is undecided by the verifier (the bounded witness search then decides
         # between a replayable violation and exit 2).  Verus assumes a failed assertion afterwards, so clauses that depend on it
